@@ -2,7 +2,7 @@
 (* Small-scope instance for selection (C04).  A state is one call: cs = the case, res = its result.        *)
 (* TLC enumerates every case; the invariants are the design-level statements of the property; the state    *)
 (* dump is replayed into the real code on every block layout (conformance leg R).                          *)
-EXTENDS SFFrame
+EXTENDS SFOps
 CONSTANTS NR, NC,           \* frame shape
           AllSteps,         \* TRUE only in the negative control: also demand agreement for negative steps
           Full              \* TRUE: full key product on both axes; FALSE: full keys on one axis x probe keys on the other
@@ -47,13 +47,6 @@ InitCases ==
   \/ \E ck \in LKeys(ColLab) : cs = [op |-> "f_getitem", f |-> F, ck |-> ck]
   \/ \E rk \in IKeys(NR) : cs = [op |-> "s_iloc", s |-> Ser, rk |-> rk]
   \/ \E rk \in LKeys(RowLab) : cs = [op |-> "s_loc", s |-> Ser, rk |-> rk]
-
-Apply(c) ==
-  CASE c.op = "f_iloc" -> FrameIloc(c.f, c.rk, c.ck)
-    [] c.op = "f_loc" -> FrameLoc(c.f, c.rk, c.ck)
-    [] c.op = "f_getitem" -> FrameGetItem(c.f, c.ck)
-    [] c.op = "s_iloc" -> SeriesIloc(c.s, c.rk)
-    [] c.op = "s_loc" -> SeriesLoc(c.s, c.rk)
 
 Pending == [k |-> "pending"]
 Init == InitCases /\ res = Pending
